@@ -369,3 +369,14 @@ def check_name_equality(ctx):
             ctx.fail('C18.6', ctx.site(b), '%s equality is %s: a statically declared name and the parsed (owned) name with the same text would differ' % (name, 'derived (variant-sensitive)' if derived else fmt(rt)), key='C18.6|' + name)
     if n == 0:
         ctx.lost('C18.6', 'static/owned name enums')
+
+
+_check_inner = check
+
+
+def check(ctx):
+    _check_inner(ctx)
+    from .. import panic
+    F = ctx.F
+    entries = [b for b in F.trait_impl('TryFrom') if '::expressions::' in b.path and 'Envelope' in (b.impl_trait_full or '')]
+    panic.slice_check(ctx, 'C18.7', entries, 'expression-parse')
